@@ -53,7 +53,8 @@ class QuietLog:
 # ---------------------------------------------------------------- (1) worker loops ---------------
 
 def max_gap(notes, end):
-    pts = list(notes) + [end]
+    # the heartbeat file is stamped when the worker is created (t=0): the stretch before the first notify counts
+    pts = [0.0] + list(notes) + [end]
     return max((b - a for a, b in zip(pts, pts[1:])), default=0.0)
 
 
@@ -76,14 +77,17 @@ def measure_sync(T, pattern, multi=False):
     from vlib import gparse
     clock = Clock()
     cfg = gparse.make_cfg()
-    arrivals = sorted(pattern)
+    # pattern entries: (arrival, duration) on the first listener or (arrival, duration, listener index)
+    arrivals = sorted((a[0], a[1], a[2] if len(a) > 2 else 0) for a in pattern)
     horizon = (arrivals[-1][0] + arrivals[-1][1] if arrivals else 0) + 3 * T + 1
 
     class Listener:
         def accept(self_):
-            if arrivals and arrivals[0][0] <= clock.now + 1e-9:
-                a = arrivals.pop(0)
-                return ("client", a[1]), ("127.0.0.1", 1)
+            me = listeners.index(self_)
+            for i, a in enumerate(arrivals):
+                if a[0] <= clock.now + 1e-9 and a[2] == me:
+                    arrivals.pop(i)
+                    return ("client", a[1]), ("127.0.0.1", 1)
             raise BlockingIOError(errno.EAGAIN, "no connection")
 
         def setblocking(self_, v):
@@ -108,12 +112,14 @@ def measure_sync(T, pattern, multi=False):
             clock.now += EPS
             if clock.now >= horizon:
                 wk.alive = False
-            if arrivals and arrivals[0][0] <= clock.now:
-                return ([listeners[0]], [], [])
+            def ready():
+                return [l for i, l in enumerate(listeners) if any(a[0] <= clock.now + 1e-9 and a[2] == i for a in arrivals)]
+            if ready():
+                return (ready(), [], [])
             nxt = arrivals[0][0] if arrivals else None
             if nxt is not None and nxt < clock.now + timeout:
                 clock.now = nxt
-                return ([listeners[0]], [], [])
+                return (ready(), [], [])
             clock.now += timeout
             if clock.now >= horizon:
                 wk.alive = False
@@ -290,11 +296,18 @@ def worker_side(thorough):
         for multi in (False, True):
             cls = "sync" + ("-multi" if multi else "")
             worst = 0.0
-            for name, pat in sync_patterns(T).items():
+            pats = dict(sync_patterns(T))
+            if multi:
+                # clients pending on BOTH listeners when the worker wakes up: each request shorter than the timeout
+                for d in (T / 2.0, T - 0.1):
+                    pats["both-listeners-%.2f" % d] = [(0.5, d, 0), (0.5, d, 1)]
+                    pats["both-listeners-repeated-%.2f" % d] = [(0.5 + i * (2 * d + 0.3), d, j) for i in range(3) for j in (0, 1)]
+                    pats["second-listener-only-%.2f" % d] = [(0.5, d, 1), (0.5 + d + 0.2, d, 1)]
+            for name, pat in pats.items():
                 G, cnt = measure_sync(T, pat, multi)
                 n += 1
                 worst = max(worst, G)
-                longest = max([d for _a, d in pat], default=0.0)
+                longest = max([a[1] for a in pat], default=0.0)
                 if G > T + 1e-9:
                     fp = "heartbeat-gap-exceeds-timeout:%s:%s" % (cls, name.split("-")[0] + ("-" + name.split("-")[1] if name.startswith("back") else ""))
                     viols.setdefault(fp, violation("worker:" + fp, "%s worker, timeout=%d, pattern %s (requests of at most %.2f s): %.3f s between two heartbeats" % (
@@ -403,6 +416,30 @@ def master_cell(cell):
             live = [p for p in k.children() if p.alive and p.kind == "worker"]
             if len(live) != 2 or victim in dict.keys(o.arbiter.WORKERS):
                 bad.append(("hung-worker-not-replaced", "after the kill: %d live workers, tracked %r" % (len(live), sorted(dict.keys(o.arbiter.WORKERS)))))
+    elif kind == "hung-busy-master":
+        # the master never sleeps a full second: something wakes it up every `period` s while a worker hangs
+        _, T, wake, period = cell
+        pre = 2
+        n = int((T + 6) / period)
+        wake_ev = ("sig", "USR1") if wake == "usr1" else ("sig", "TTIN") if wake == "ttin-ttou" else ("exit", 1, 9)
+        script = [("tick",)] * pre + [("hang", 0, "app")]
+        for i in range(n):
+            ev = wake_ev
+            if wake == "ttin-ttou" and i % 2:
+                ev = ("sig", "TTOU")
+            script.append((("pass", period), ev))
+        k, o = master_run(T, "fixed", 0.0, 0.0, script, abrt="die", workers=2)
+        t0 = 1000.0 + pre
+        abrts = [x for x in k.kills if x[1] == 101 and x[2] == signal.SIGABRT]
+        if o.end != "horizon":
+            bad.append(("master-stopped", "%s %s" % (o.end, o.exc)))
+        elif not abrts:
+            bad.append(("hung-worker-not-aborted:master-woken-every-%.1fs" % period, "timeout=%d: the master is woken every %.1f s (%s) and never sent SIGABRT to the worker hung for %.1f s" % (
+                T, period, wake, n * period)))
+        elif abrts[0][0] - t0 > T + 2.0 + 1e-6:
+            bad.append(("hung-worker-aborted-late:master-woken-every-%.1fs" % period, "timeout=%d: SIGABRT %.2f s after the hang" % (T, abrts[0][0] - t0)))
+        elif abrts[0][0] - t0 < T - 1e-6:
+            bad.append(("hung-worker-aborted-early", "timeout=%d: SIGABRT only %.2f s after the last heartbeat" % (T, abrts[0][0] - t0)))
     elif kind == "reload":
         _, T1, T2, phase = cell
         ticks = int(max(T1, T2) + 4)
@@ -513,6 +550,10 @@ def master_cells(gaps, thorough):
         cells.append(("reload-hung", a, b, 0.0))
     for T in ((1, 2, 3) if thorough else (2,)):
         cells.append(("scan-race", T))
+    for T in (1, 2, 3, 5):
+        for wake in ("usr1", "sibling-exit", "ttin-ttou"):
+            for period in ((0.5, 0.3, 0.9) if thorough else (0.5,)):
+                cells.append(("hung-busy-master", T, wake, period))
     return cells
 
 
